@@ -424,7 +424,7 @@ class Body:
         return None
 
 
-def cond_edges(b, atom_call=None, atom_place=None, want=True):
+def cond_edges(b, atom_call=None, atom_place=None, want=True, seed_edges=()):
     """Edges whose traversal implies that an *atomic condition* has the value `want`, looking through boolean temporaries:
     `let c = a && b; if c { .. }` lowers to a bool local with several definitions (a constant false on the short-circuit path, the value
     of `b` otherwise) that is switched on later; taking the true edge of that switch implies both `a` and `b`.
@@ -448,7 +448,7 @@ def cond_edges(b, atom_call=None, atom_place=None, want=True):
             return [(sb, sw["otherwise"])]
         return [(sb, zero[0])] if zero else []
 
-    E = []
+    E = list(seed_edges)           # e.g. the edges of a discriminant switch for one variant (`matches!(x, V)` hoisted into a bool)
 
     def switch_value_source(sw):
         """(local, negated) the switch tests, following Use / Not chains; or ('place', origin, negated)"""
@@ -492,13 +492,34 @@ def cond_edges(b, atom_call=None, atom_place=None, want=True):
             E += edge_for(sb, sw, want != v[2])
         elif v[0] == "place" and atom_place is not None and atom_place(v[1]):
             E += edge_for(sb, sw, want != v[2])
-    if not want:
-        return E            # implication through temporaries is only computed for the true polarity
-    # bool temporaries whose truth implies the atom
+    # bool temporaries whose truth implies the atom (== want)
     memo = {}
+
+    def negated_atom(l):
+        """l = !atom (one level)"""
+        d = b.single_def(l)
+        if d is None or d[1] == "t" or d[2]["rv"]["k"] != "Un" or d[2]["rv"]["op"] != "Not":
+            return False
+        pl = d[2]["rv"]["o"][0].get("c") or d[2]["rv"]["o"][0].get("m")
+        if pl is None:
+            return False
+        if not pl["p"]:
+            if pl["l"] in atoms:
+                return True
+            d2 = b.single_def(pl["l"])
+            if d2 and d2[1] != "t" and d2[2]["rv"]["k"] == "Use":
+                p2 = d2[2]["rv"]["o"][0].get("c") or d2[2]["rv"]["o"][0].get("m")
+                if p2 is not None and p2["p"] and atom_place is not None and atom_place(b.origin(p2["l"], tuple(p2["p"]))):
+                    return True
+                if p2 is not None and not p2["p"] and p2["l"] in atoms:
+                    return True
+            return False
+        return atom_place is not None and atom_place(b.origin(pl["l"], tuple(pl["p"])))
 
     def implies(l, depth=0):
         if l in atoms:
+            return want
+        if not want and negated_atom(l):
             return True
         if l in memo:
             return memo[l]
@@ -528,10 +549,14 @@ def cond_edges(b, atom_call=None, atom_place=None, want=True):
                 pl = o.get("c") or o.get("m")
                 if pl is not None and not pl["p"] and implies(pl["l"], depth + 1):
                     continue
-                if pl is not None and pl["p"] and atom_place is not None and atom_place(b.origin(pl["l"], tuple(pl["p"]))):
+                if want and pl is not None and pl["p"] and atom_place is not None and atom_place(b.origin(pl["l"], tuple(pl["p"]))):
                     continue
                 ok = ok and bool(E) and b.edges_dominate(E, db)
                 continue
+            if not want and rv["k"] == "Un" and rv["op"] == "Not":
+                pl = rv["o"][0].get("c") or rv["o"][0].get("m")
+                if pl is not None and ((not pl["p"] and pl["l"] in atoms) or (pl["p"] and atom_place is not None and atom_place(b.origin(pl["l"], tuple(pl["p"]))))):
+                    continue
             ok = ok and bool(E) and b.edges_dominate(E, db)
         memo[l] = ok
         return ok
